@@ -52,6 +52,7 @@ type VC struct {
 	lastType map[string]types.Type
 	oblNames map[string]int
 	lastState map[string]*State // state right after the most recent call counted under a label
+	beforeState map[string]*State // state right before it
 	labels   map[string]bool // ghost call-history labels the contract under verification uses
 	curPos   token.Pos
 }
